@@ -428,16 +428,84 @@ def _ret_elim_block(text, lo, hi, top, done, val, fnq, kind='return'):
                     break
             pieces.append(text[pos:en])
             new_it = ''.join(pieces)
+        elif re.match(r'^match\b', it):
+            # a match statement: every arm is treated in turn; an arm that is the bare keyword becomes a block
+            pd = 0
+            b = st
+            while b < en:
+                if mask[b]:
+                    c = text[b]
+                    if c in '([':
+                        pd += 1
+                    elif c in ')]':
+                        pd -= 1
+                    elif pd == 0 and c == '{':
+                        break
+                b += 1
+            if b >= en:
+                raise GenError('%s: R17/R12b: match without a block' % fnq)
+            bc = rs.match_close(text, mask, b)
+            pieces = [text[st:b + 1]]
+            pos = b + 1
+            while True:
+                # next `=>` at depth 0 of the match block
+                d = 0
+                a = pos
+                while a < bc:
+                    if mask[a]:
+                        c = text[a]
+                        if c in '([{':
+                            d += 1
+                        elif c in ')]}':
+                            d -= 1
+                        elif d == 0 and text[a:a + 2] == '=>':
+                            break
+                    a += 1
+                if a >= bc:
+                    break
+                body_st = _skip_ws(text, mask, a + 2)
+                pieces.append(text[pos:body_st])
+                if text[body_st] == '{':
+                    ac = rs.match_close(text, mask, body_st)
+                    pieces.append('{')
+                    pieces.append(_ret_elim_block(text, body_st + 1, ac, False, done, val, fnq, kind))
+                    pieces.append('}')
+                    pos = ac + 1
+                else:
+                    # expression arm: up to the `,` at depth 0 (or the end of the match block)
+                    d = 0
+                    e = body_st
+                    while e < bc:
+                        if mask[e]:
+                            c = text[e]
+                            if c in '([{':
+                                d += 1
+                            elif c in ')]}':
+                                d -= 1
+                            elif d == 0 and c == ',':
+                                break
+                        e += 1
+                    arm = text[body_st:e]
+                    if _has_code(text, mask, key_re, body_st, e):
+                        if kind == 'continue' and arm.strip() == 'continue':
+                            pieces.append('{ %s = true; }' % done)
+                        else:
+                            raise GenError('%s: R17/R12b: `%s` inside a match arm expression' % (fnq, kind))
+                    else:
+                        pieces.append(arm)
+                    pos = e
+            pieces.append(text[pos:en])
+            new_it = ''.join(pieces)
         else:
-            raise GenError('%s: R17/R12b: `%s` in a place other than an if-chain or a plain statement' % (fnq, kind))
+            raise GenError('%s: R17/R12b: `%s` in a place other than an if-chain, a match statement or a plain statement' % (fnq, kind))
         out.append(new_it)
         rest_lo = en
         if n + 1 < len(items):
             rest = _ret_elim_block(text, items[n + 1][0], hi, top, done, val, fnq, kind)
             if top:
-                out.append('if %s { %s } else { %s }' % (done, val, rest))
+                out.append('if %s { %s } else {\n%s\n}' % (done, val, rest))
             else:
-                out.append('if !%s { %s }' % (done, rest))
+                out.append('if !%s {\n%s\n}' % (done, rest))
         elif top:
             out.append('%s' % val)
         return '\n'.join(out)
